@@ -1,405 +1,939 @@
-"""E5 - finite flag-predicate analysis and verdict-object rules shared by C01 and C17."""
+"""E5 - finite flag-predicate analysis and verdict-object rules shared by C01 and C17.
+
+Everything here is decided from *values*, never from the spelling of the source:
+  * the verdict predicate `SecurityIssues.causes_signature_verify_to_fail` is evaluated by a checker-side evaluator (FlagFn)
+    at every subset of the declared flag bits (2^n rows); monotonicity, the disqualifying members and the advisory members
+    are read off that truth table
+  * the record of a verification (`SignatureVerification._sigsubj`) is taken from `add_sigsubj` under the interpreter: its
+    fields are mapped by namedtuple position / keyword, the four caller values by parameter position
+  * good_signatures / bad_signatures / __bool__ are interpreted once per row of the truth table over the atoms
+    {record.issues truthy, record.issues.<predicate>}; loops, comprehensions, `continue` chains and helpers give the same rows
+  * PGPKey.verify is interpreted under the atoms {issue set truthy, predicate, library verdict}; the pair examined is the pair
+    the loop binds, whatever the variables are called
+"""
 import ast
 import re
 import itertools
 
 from .loader import AnalysisError, dotted
-from .interp import Interp, Scenario, Sym, Const, render
+from .interp import Interp, Scenario, Sym, Const, ListV, render, alpha
 from .cfg import CFG, calls_in
+from . import guards
 
 DISQUALIFYING = ['WrongSig', 'Expired', 'Disabled', 'Invalid', 'NoSelfSignature']
 ADVISORY = ['BrokenAsymmetricFunc', 'HashFunctionNotCollisionResistant', 'HashFunctionNotSecondPreimageResistant',
             'AsymmetricKeyLengthIsTooShort', 'InsecureCurve']
+PREDICATE = 'causes_signature_verify_to_fail'
+# public fields of a verification record, in the positional order of SignatureVerification.add_sigsubj(signature, by, subject, issues)
+ROLES = ('signature', 'by', 'subject', 'issues')
+
+noinline = lambda f: False  # noqa: E731
 
 
 def _issues(prog):
     ci = prog.cls('pgpy.constants', 'SecurityIssues')
     mem = ci.enum_members()
+    mem = {k: v for k, v in mem.items() if isinstance(v, int) and not isinstance(v, bool)}
     if not mem:
         raise AnalysisError('SecurityIssues has no members')
     return ci, mem
 
 
-def _fold_mask(node, mem):
-    """Fold SecurityIssues.A | SecurityIssues.B | ... to an int mask; None if not of that shape."""
-    if isinstance(node, ast.BinOp) and isinstance(node.op, ast.BitOr):
-        a, b = _fold_mask(node.left, mem), _fold_mask(node.right, mem)
-        return None if a is None or b is None else a | b
-    if isinstance(node, ast.Attribute) and isinstance(node.value, ast.Name) and node.value.id in ('SecurityIssues', 'self', 'cls'):
-        return mem.get(node.attr)
-    if isinstance(node, ast.Attribute) and isinstance(node.value, ast.Attribute) and node.value.attr == 'SecurityIssues':
-        return mem.get(node.attr)
-    if isinstance(node, ast.Constant) and isinstance(node.value, int):
-        return node.value
-    if isinstance(node, ast.Call) and dotted(node.func) == 'SecurityIssues' and node.args:
-        return _fold_mask(node.args[0], mem)
-    return None
+# ------------------------------------------------------------------------------------------------ flag evaluator
+class _Unknown(Exception):
+    pass
 
 
-def classify_predicate(expr, mem, selfname='self'):
-    """Type the predicate in {('monotone', mask), ('nonmonotone', witness), ('constant', v), ('unknown', why)}.
+class Flag(int):
+    """A value of the flag class (IntFlag): `a in b` is bit containment, & | ^ ~ stay flags."""
+    def __and__(self, o):
+        return Flag(int(self) & int(o))
+    __rand__ = __and__
 
-    monotone w.r.t. bit inclusion of `self`: the forms  bool(self & M), self & M, (self & M) != 0, (self & M) > 0,
-    M & self, K in self, any(k in self for k in (..)), monotone-or/and of monotone.  `self in {..}`, `self == K`,
-    `self is K` are non-monotone whenever the enum has a member outside the set."""
-    def is_self(n):
-        return isinstance(n, ast.Name) and n.id == selfname
+    def __or__(self, o):
+        return Flag(int(self) | int(o))
+    __ror__ = __or__
 
-    def masked(n):
-        """self & M  -> M"""
-        if isinstance(n, ast.BinOp) and isinstance(n.op, ast.BitAnd):
-            if is_self(n.left):
-                return _fold_mask(n.right, mem)
-            if is_self(n.right):
-                return _fold_mask(n.left, mem)
+    def __xor__(self, o):
+        return Flag(int(self) ^ int(o))
+    __rxor__ = __xor__
+
+    def __invert__(self):
+        return Flag(~int(self))
+
+
+class _Return(Exception):
+    def __init__(self, v):
+        self.v = v
+
+
+class _Break(Exception):
+    pass
+
+
+class _Continue(Exception):
+    pass
+
+
+class FlagFn(object):
+    """Checker-side evaluation of a method / property of a flag class at concrete flag values.
+
+    Finite truth-table evaluation of closed expressions over the declared members (like s2kshape.fold): no repository code
+    runs; any construct outside the small language below raises AnalysisError (never a verdict)."""
+    def __init__(self, prog, ci, mem):
+        self.prog, self.ci, self.mem = prog, ci, mem
+        self.depth = 0
+
+    def call(self, f, selfval):
+        if self.depth > 4:
+            raise _Unknown('recursion')
+        p = f.params
+        env = {p[0]: Flag(selfval)} if p else {}
+        self.depth += 1
+        try:
+            self.block(f.node.body, env, f)
+        except _Return as r:
+            return r.v
+        finally:
+            self.depth -= 1
         return None
 
-    def rec(n):
-        if isinstance(n, ast.Call) and dotted(n.func) == 'bool' and len(n.args) == 1:
-            return rec(n.args[0])
-        m = masked(n)
-        if m is not None:
-            return ('monotone', m)
-        if isinstance(n, ast.Compare) and len(n.ops) == 1:
-            op, l, r = n.ops[0], n.left, n.comparators[0]
-            lm = masked(l)
-            if lm is not None and isinstance(r, ast.Constant) and r.value == 0 and isinstance(op, (ast.NotEq, ast.Gt)):
-                return ('monotone', lm)
-            if lm is not None and isinstance(op, (ast.NotEq, ast.IsNot)) and _fold_mask(r, mem) == 0:
-                return ('monotone', lm)
-            if isinstance(op, ast.In) and is_self(r):
-                k = _fold_mask(l, mem)
-                if k is not None:
-                    # K in self (IntFlag containment): all bits of K set.  Monotone; mask semantic is "all of K".
-                    return ('monotone_all', k)
-            if isinstance(op, (ast.In,)) and is_self(l) and not isinstance(r, (ast.Set, ast.Tuple, ast.List)):
-                mk = _fold_mask(r, mem)
-                if mk:
-                    # `self in MASK` on an IntFlag is a SUBSET test: adding any bit outside MASK turns it false
-                    k = next((v for v in mem.values() if v and (v & mk) == v), None)
-                    o = next((v for v in mem.values() if v and not (v & mk)), None)
-                    if k is not None and o is not None:
-                        return ('nonmonotone', (k, k | o))
-            if isinstance(op, (ast.In,)) and is_self(l):
-                elts = r.elts if isinstance(r, (ast.Set, ast.Tuple, ast.List)) else None
-                if elts is not None:
-                    ks = [_fold_mask(e, mem) for e in elts]
-                    if all(k is not None for k in ks):
-                        others = [v for v in mem.values() if v and v not in ks]
-                        for k in ks:
-                            for o in others:
-                                if k and (k | o) not in ks:
-                                    return ('nonmonotone', (k, k | o))
-                        return ('unknown', 'membership test on self')
-            if isinstance(op, (ast.Eq, ast.Is)) and (is_self(l) or is_self(r)):
-                k = _fold_mask(r if is_self(l) else l, mem)
-                if k:
-                    o = next((v for v in mem.values() if v and not (v & k)), None)
-                    if o is not None:
-                        return ('nonmonotone', (k, k | o))
-            return ('unknown', ast.unparse(n))
-        if isinstance(n, ast.BoolOp):
-            parts = [rec(v) for v in n.values]
-            for p in parts:
-                if p[0] in ('nonmonotone', 'unknown'):
-                    return p
-            if isinstance(n.op, ast.Or) and all(p[0] == 'monotone' for p in parts):
-                m = 0
-                for p in parts:
-                    m |= p[1]
-                return ('monotone', m)
-            if isinstance(n.op, ast.Or) and all(p[0] in ('monotone', 'monotone_all') for p in parts):
-                # K in self with single-bit K is the same as self & K
-                m = 0
-                for p in parts:
-                    if p[0] == 'monotone_all' and bin(p[1]).count('1') != 1:
-                        return ('monotone_other', None)
-                    m |= p[1]
-                return ('monotone', m)
-            return ('monotone_other', None)
-        if isinstance(n, ast.Call) and dotted(n.func) == 'any' and len(n.args) == 1 and \
-                isinstance(n.args[0], (ast.GeneratorExp, ast.ListComp)) and len(n.args[0].generators) == 1:
-            g = n.args[0]
-            gen = g.generators[0]
-            if isinstance(gen.target, ast.Name) and isinstance(g.elt, ast.Compare) and len(g.elt.ops) == 1 and \
-                    isinstance(g.elt.ops[0], ast.In) and isinstance(g.elt.left, ast.Name) and g.elt.left.id == gen.target.id \
-                    and is_self(g.elt.comparators[0]) and isinstance(gen.iter, (ast.Tuple, ast.List, ast.Set)) and not gen.ifs:
-                ks = [_fold_mask(e, mem) for e in gen.iter.elts]
-                if all(k is not None and bin(k).count('1') == 1 for k in ks):
-                    m = 0
-                    for k in ks:
-                        m |= k
-                    return ('monotone', m)
-            return ('unknown', ast.unparse(n))
+    # statements
+    def block(self, stmts, env, f):
+        for st in stmts:
+            self.stmt(st, env, f)
+
+    def stmt(self, st, env, f):
+        if isinstance(st, ast.Expr):
+            if not isinstance(st.value, ast.Constant):
+                self.ev(st.value, env, f)
+            return
+        if isinstance(st, (ast.Pass, ast.Import, ast.ImportFrom)):
+            return
+        if isinstance(st, ast.Return):
+            raise _Return(self.ev(st.value, env, f) if st.value is not None else None)
+        if isinstance(st, ast.Assign) and all(isinstance(t, ast.Name) for t in st.targets):
+            v = self.ev(st.value, env, f)
+            for t in st.targets:
+                env[t.id] = v
+            return
+        if isinstance(st, ast.AugAssign) and isinstance(st.target, ast.Name):
+            env[st.target.id] = self.binop(st.op, self.ev(ast.Name(id=st.target.id, ctx=ast.Load()), env, f), self.ev(st.value, env, f))
+            return
+        if isinstance(st, ast.If):
+            self.block(st.body if self.ev(st.test, env, f) else st.orelse, env, f)
+            return
+        if isinstance(st, ast.For) and isinstance(st.target, ast.Name):
+            broke = False
+            for x in self.iterable(self.ev(st.iter, env, f)):
+                env[st.target.id] = x
+                try:
+                    self.block(st.body, env, f)
+                except _Break:
+                    broke = True
+                    break
+                except _Continue:
+                    continue
+            if not broke:
+                self.block(st.orelse, env, f)
+            return
+        if isinstance(st, ast.Break):
+            raise _Break()
+        if isinstance(st, ast.Continue):
+            raise _Continue()
+        raise _Unknown('statement %s' % type(st).__name__)
+
+    def iterable(self, v):
+        if isinstance(v, (tuple, list, set, frozenset)):
+            return list(v) if isinstance(v, (tuple, list)) else sorted(v)
+        raise _Unknown('iteration over %r' % (v,))
+
+    # expressions
+    def ev(self, n, env, f):
         if isinstance(n, ast.Constant):
-            return ('constant', bool(n.value))
-        if isinstance(n, ast.UnaryOp) and isinstance(n.op, ast.Not):
-            p = rec(n.operand)
-            if p[0] == 'monotone':
-                return ('antitone', p[1])
-            return ('unknown', ast.unparse(n))
-        return ('unknown', ast.unparse(n))
-    return rec(expr)
-
-
-def predicate_of(prog):
-    ci, mem = _issues(prog)
-    f = ci.methods.get('causes_signature_verify_to_fail')
-    if f is None:
-        raise AnalysisError('SecurityIssues.causes_signature_verify_to_fail vanished')
-    body = [st for st in f.node.body if not (isinstance(st, ast.Expr) and isinstance(st.value, ast.Constant))]
-    # substitute simple local assignments  (mask = A | B; return bool(self & mask))
-    env = {}
-    ret = None
-    for st in body:
-        if isinstance(st, ast.Assign) and len(st.targets) == 1 and isinstance(st.targets[0], ast.Name):
-            env[st.targets[0].id] = st.value
-        elif isinstance(st, ast.Return):
-            ret = st.value
-        else:
-            return f, mem, ('unknown', 'statement %s' % type(st).__name__), None
-    if ret is None:
-        return f, mem, ('unknown', 'no return'), None
-
-    class Sub(ast.NodeTransformer):
-        def visit_Name(self, n):
+            return n.value
+        if isinstance(n, ast.Name):
             if n.id in env:
-                return self.visit(env[n.id])
-            return n
-    import copy
-    ret2 = Sub().visit(copy.deepcopy(ret))
-    p = f.params
-    return f, mem, classify_predicate(ret2, mem, p[0] if p else 'self'), ret
+                return env[n.id]
+            if n.id == self.ci.name:
+                return self.ci
+            if f is not None and n.id in f.module.assigns:
+                return self.ev(f.module.assigns[n.id], {}, f)
+            m = self.ci.module
+            if n.id in m.assigns:
+                return self.ev(m.assigns[n.id], {}, None)
+            raise _Unknown('name %s' % n.id)
+        if isinstance(n, ast.Attribute):
+            d = dotted(n)
+            if d is not None and d.split('.')[-2:-1] == [self.ci.name] and n.attr in self.mem:
+                return Flag(self.mem[n.attr])
+            base = self.ev(n.value, env, f)
+            if base is self.ci or isinstance(base, Flag):
+                if n.attr in self.mem:
+                    return Flag(self.mem[n.attr])       # member seen through the class or an instance
+                if isinstance(base, Flag):
+                    if n.attr in ('value', '_value_'):
+                        return int(base)
+                    g = self.ci.find_method(n.attr)
+                    if g is not None and any(dotted(x) == 'property' for x in g.node.decorator_list):
+                        return self.call(g, base)
+                av = self.ci.find_attr(n.attr)
+                if av is not None:
+                    return self.ev(av, {}, None)
+            raise _Unknown('attribute %s' % ast.unparse(n))
+        if isinstance(n, (ast.Tuple, ast.List)):
+            return tuple(self.ev(e, env, f) for e in n.elts)
+        if isinstance(n, ast.Set):
+            return frozenset(self.ev(e, env, f) for e in n.elts)
+        if isinstance(n, ast.UnaryOp):
+            v = self.ev(n.operand, env, f)
+            if isinstance(n.op, ast.Not):
+                return not v
+            if isinstance(n.op, ast.Invert) and isinstance(v, int) and not isinstance(v, bool):
+                return ~v
+            if isinstance(n.op, ast.USub) and isinstance(v, int) and not isinstance(v, bool):
+                return -int(v)
+            raise _Unknown(ast.unparse(n))
+        if isinstance(n, ast.BinOp):
+            return self.binop(n.op, self.ev(n.left, env, f), self.ev(n.right, env, f))
+        if isinstance(n, ast.BoolOp):
+            v = None
+            for x in n.values:
+                v = self.ev(x, env, f)
+                if isinstance(n.op, ast.And) and not v:
+                    return v
+                if isinstance(n.op, ast.Or) and v:
+                    return v
+            return v
+        if isinstance(n, ast.IfExp):
+            return self.ev(n.body if self.ev(n.test, env, f) else n.orelse, env, f)
+        if isinstance(n, ast.Compare):
+            l = self.ev(n.left, env, f)
+            for op, c in zip(n.ops, n.comparators):
+                r = self.ev(c, env, f)
+                if not self.compare(op, l, r):
+                    return False
+                l = r
+            return True
+        if isinstance(n, (ast.GeneratorExp, ast.ListComp, ast.SetComp)):
+            out = []
+            self.comp(n, 0, dict(env), f, out)
+            return frozenset(out) if isinstance(n, ast.SetComp) else tuple(out)
+        if isinstance(n, ast.Call) and not n.keywords:
+            fn = dotted(n.func)
+            args = [self.ev(a, env, f) for a in n.args]
+            if fn == 'bool' and len(args) == 1:
+                return bool(args[0])
+            if fn == 'int' and len(args) == 1 and isinstance(args[0], int):
+                return int(args[0])
+            if fn in ('any', 'all') and len(args) == 1:
+                return {'any': any, 'all': all}[fn](self.iterable(args[0]))
+            if fn in ('tuple', 'list') and len(args) <= 1:
+                return tuple(self.iterable(args[0])) if args else ()
+            if fn in ('set', 'frozenset') and len(args) <= 1:
+                return frozenset(self.iterable(args[0])) if args else frozenset()
+            if fn == 'len' and len(args) == 1:
+                return len(self.iterable(args[0]))
+            if fn is not None and fn.split('.')[-1] == self.ci.name and len(args) == 1 and isinstance(args[0], int):
+                return Flag(args[0])
+            if isinstance(n.func, ast.Attribute) and not args:
+                base = self.ev(n.func.value, env, f)
+                g = self.ci.find_method(n.func.attr) if isinstance(base, Flag) else None
+                if g is not None and not g.node.decorator_list:
+                    return self.call(g, base)
+            raise _Unknown('call %s' % ast.unparse(n))
+        raise _Unknown(ast.unparse(n))
+
+    def comp(self, n, i, env, f, out):
+        if i == len(n.generators):
+            out.append(self.ev(n.elt, env, f))
+            return
+        g = n.generators[i]
+        if not isinstance(g.target, ast.Name):
+            raise _Unknown('comprehension target')
+        for x in self.iterable(self.ev(g.iter, env, f)):
+            env[g.target.id] = x
+            if all(self.ev(c, env, f) for c in g.ifs):
+                self.comp(n, i + 1, env, f, out)
+
+    def binop(self, op, l, r):
+        if not (isinstance(l, int) and isinstance(r, int)):
+            raise _Unknown('operands of %s' % type(op).__name__)
+        flag = isinstance(l, Flag) or isinstance(r, Flag)
+        fn = {ast.BitAnd: lambda a, b: a & b, ast.BitOr: lambda a, b: a | b, ast.BitXor: lambda a, b: a ^ b,
+              ast.Add: lambda a, b: a + b, ast.Sub: lambda a, b: a - b, ast.Mult: lambda a, b: a * b,
+              ast.LShift: lambda a, b: a << b, ast.RShift: lambda a, b: a >> b}.get(type(op))
+        if fn is None:
+            raise _Unknown('operator %s' % type(op).__name__)
+        v = fn(int(l), int(r))
+        return Flag(v) if flag and isinstance(op, (ast.BitAnd, ast.BitOr, ast.BitXor)) else v
+
+    def compare(self, op, l, r):
+        if isinstance(op, (ast.In, ast.NotIn)):
+            if isinstance(r, Flag):
+                if not isinstance(l, int) or isinstance(l, bool):
+                    raise _Unknown('containment of %r' % (l,))
+                res = (int(l) & int(r)) == int(l)          # Flag.__contains__: every bit of l is set in r
+            elif isinstance(r, (tuple, frozenset)):
+                res = any(self.same(l, x) for x in r)
+            else:
+                raise _Unknown('membership in %r' % (r,))
+            return res if isinstance(op, ast.In) else not res
+        if isinstance(op, (ast.Eq, ast.Is)):
+            return self.same(l, r)
+        if isinstance(op, (ast.NotEq, ast.IsNot)):
+            return not self.same(l, r)
+        if isinstance(l, int) and isinstance(r, int):
+            if isinstance(op, ast.Gt):
+                return int(l) > int(r)
+            if isinstance(op, ast.GtE):
+                return int(l) >= int(r)
+            if isinstance(op, ast.Lt):
+                return int(l) < int(r)
+            if isinstance(op, ast.LtE):
+                return int(l) <= int(r)
+        raise _Unknown('comparison %s' % type(op).__name__)
+
+    @staticmethod
+    def same(l, r):
+        # members are singletons looked up by value (assumption echoed by C17): identity == equality of the bit sets
+        if isinstance(l, int) and isinstance(r, int) and not isinstance(l, bool) and not isinstance(r, bool):
+            return int(l) == int(r)
+        if l is None or r is None or isinstance(l, bool) or isinstance(r, bool):
+            return l is r
+        return l == r
+
+
+class Predicate(object):
+    """Truth table of SecurityIssues.<predicate> over all subsets of the declared single-bit members."""
+    def __init__(self, prog):
+        self.ci, self.mem = _issues(prog)
+        self.f = self.ci.methods.get(PREDICATE)
+        if self.f is None:
+            raise AnalysisError('SecurityIssues.%s vanished' % PREDICATE)
+        self.construct = 'SecurityIssues.%s' % PREDICATE
+        self.fn = FlagFn(prog, self.ci, self.mem)
+        self.bits = sorted(v for v in self.mem.values() if v and (v & (v - 1)) == 0)
+        if len(self.bits) > 14:
+            raise AnalysisError('SecurityIssues has %d flag bits: truth table too large' % len(self.bits))
+        self.cache = {}
+        rets = [n for n in ast.walk(self.f.node) if isinstance(n, ast.Return) and n.value is not None]
+        self.text = ast.unparse(rets[-1].value) if rets else '<no return>'
+
+    def __call__(self, value):
+        if value not in self.cache:
+            try:
+                self.cache[value] = bool(self.fn.call(self.f, value))
+            except _Unknown as ex:
+                raise AnalysisError('verdict predicate has an unrecognised shape: %s' % ex)
+        return self.cache[value]
+
+    def subsets(self):
+        for r in range(len(self.bits) + 1):
+            for c in itertools.combinations(self.bits, r):
+                v = 0
+                for b in c:
+                    v |= b
+                yield v
+
+    def name(self, v):
+        return '|'.join(n for n, b in self.mem.items() if b and (b & (b - 1)) == 0 and v & b) or 'OK'
+
+    def nonmonotone_witness(self):
+        for a in self.subsets():                    # by size: the smallest witness first
+            if self(a):
+                for b in self.bits:
+                    if not a & b and not self(a | b):
+                        return a, a | b
+        return None
+
+    def mask(self):
+        m = 0
+        for b in self.bits:
+            if self(b):
+                m |= b
+        return m
+
+    def eval_text(self, text):
+        """Value of a rendered constant expression such as SecurityIssues(255) / SecurityIssues.WrongSig | ..."""
+        try:
+            return self.fn.ev(ast.parse(text.strip(), mode='eval').body, {}, None)
+        except (_Unknown, SyntaxError):
+            return None
+
+
+def predicate(prog):
+    p = getattr(prog, '_verdict_predicate', None)
+    if p is None:
+        p = Predicate(prog)
+        try:
+            prog._verdict_predicate = p
+        except Exception:
+            pass
+    return p
 
 
 def check_monotone(rep, prog, rid):
-    f, mem, cls, ret = predicate_of(prog)
-    rep.saw(fn=f)
-    construct = 'SecurityIssues.causes_signature_verify_to_fail'
-    names = {v: k for k, v in mem.items()}
-    if cls[0] == 'nonmonotone':
-        k, k2 = cls[1]
-
-        def nm(v):
-            return '|'.join(n for n, b in mem.items() if b and v & b) or 'OK'
-        rep.violation(rid, construct, 'return %s' % ast.unparse(ret),
-                      'verdict predicate is not monotone in the issue set: %s fails but %s passes' % (nm(k), nm(k2)),
-                      where=f.where, expected='a bit-mask test such as bool(self & MASK)', found=ast.unparse(ret),
-                      scenario='witness %s -> %s' % (nm(k), nm(k2)))
+    P = predicate(prog)
+    rep.saw(fn=P.f)
+    vals = set(P(a) for a in P.subsets())
+    if len(vals) == 1:
+        rep.violation(rid, P.construct, 'return %s' % P.text, 'verdict predicate is constant %s' % vals.pop(), where=P.f.where, found=P.text)
         return None
-    if cls[0] == 'monotone':
-        rep.ok(rid, construct, 'monotone mask test, mask=%#x (%s)' % (cls[1], '|'.join(n for n, b in mem.items() if b and cls[1] & b)))
-        return cls[1]
-    if cls[0] in ('constant',):
-        rep.violation(rid, construct, 'return %s' % ast.unparse(ret), 'verdict predicate is constant %s' % cls[1], where=f.where,
-                      found=ast.unparse(ret))
+    w = P.nonmonotone_witness()
+    if w is not None:
+        k, k2 = w
+        rep.violation(rid, P.construct, 'return %s' % P.text,
+                      'verdict predicate is not monotone in the issue set: %s fails but %s passes' % (P.name(k), P.name(k2)),
+                      where=P.f.where, expected='a bit-mask test such as bool(self & MASK)', found=P.text,
+                      scenario='witness %s -> %s' % (P.name(k), P.name(k2)))
         return None
-    if cls[0] == 'antitone':
-        rep.violation(rid, construct, 'return %s' % ast.unparse(ret), 'verdict predicate is antitone: adding an issue can only make it pass',
-                      where=f.where, found=ast.unparse(ret))
-        return None
-    raise AnalysisError('verdict predicate has an unrecognised shape: %s' % (cls[1],))
+    m = P.mask()
+    rep.ok(rid, P.construct, 'monotone over all %d issue sets; single failing members mask=%#x (%s)' % (2 ** len(P.bits), m, P.name(m)))
+    return m
 
 
 def check_mask_contains(rep, prog, rid, required, forbidden=()):
-    f, mem, cls, ret = predicate_of(prog)
-    construct = 'SecurityIssues.causes_signature_verify_to_fail'
-    if cls[0] != 'monotone':
-        if cls[0] == 'nonmonotone':
-            # membership form: the listed single flags are what "contains" can mean
-            elts = []
-            for n in ast.walk(ret):
-                if isinstance(n, ast.Set):
-                    elts = [_fold_mask(e, mem) for e in n.elts]
-            mask = 0
-            for e in elts:
-                if e:
-                    mask |= e
-        else:
-            return
-    else:
-        mask = cls[1]
+    P = predicate(prog)
+    mask = P.mask()
     for name in required:
-        if name not in mem:
+        if name not in P.mem:
             raise AnalysisError('SecurityIssues.%s vanished' % name)
-        rep.check(bool(mask & mem[name]), rid, construct, 'mask lacks %s' % name,
-                  '%s must disqualify a verification' % name, where=f.where, expected='%s in the failing mask' % name,
+        rep.check(P(P.mem[name]), rid, P.construct, 'mask lacks %s' % name,
+                  '%s must disqualify a verification' % name, where=P.f.where, expected='%s in the failing mask' % name,
                   found='mask=%#x' % mask, scenario=name)
+    adv = 0
     for name in forbidden:
-        if name in mem:
-            rep.check(not (mask & mem[name]), rid, construct, 'mask contains advisory %s' % name,
-                      '%s is advisory only and must not fail a verification on its own' % name, where=f.where,
+        if name in P.mem:
+            adv |= P.mem[name]
+            rep.check(not P(P.mem[name]), rid, P.construct, 'mask contains advisory %s' % name,
+                      '%s is advisory only and must not fail a verification on its own' % name, where=P.f.where,
                       found='mask=%#x' % mask, scenario=name)
+    if adv and not (adv & mask) and P.nonmonotone_witness() is None:
+        bad = next((a for a in P.subsets() if a and not (a & ~adv) and P(a)), None)
+        rep.check(bad is None, rid, P.construct, 'advisory combination %s fails' % (P.name(bad) if bad else ''),
+                  'issues that are advisory only must not fail a verification in any combination', where=P.f.where,
+                  found=P.name(bad) if bad else None, scenario='advisory only')
+
+
+# ------------------------------------------------------------------------------------------------ the record
+class RecordModel(object):
+    """How SignatureVerification.add_sigsubj builds a record: namedtuple fields (by position / keyword) <- the caller's values
+    (by parameter position), and the collection the record is added to."""
+    def __init__(self, prog):
+        self.ci = prog.cls('pgpy.types', 'SignatureVerification')
+        self.f = prog.method('pgpy.types', 'SignatureVerification', 'add_sigsubj')
+        p = self.f.params
+        if len(p) < 1 + len(ROLES):
+            raise AnalysisError('add_sigsubj no longer takes (signature, by, subject, issues)')
+        self.params = p[1:1 + len(ROLES)]
+        self.tuples = {}
+        for c in self.ci.mro():
+            for k, v in c.attrs.items():
+                if isinstance(v, ast.Call) and (dotted(v.func) or '').split('.')[-1] == 'namedtuple' and len(v.args) == 2 and k not in self.tuples:
+                    try:
+                        fl = ast.literal_eval(v.args[1])
+                    except Exception:
+                        continue
+                    self.tuples[k] = fl.replace(',', ' ').split() if isinstance(fl, str) else list(fl)
+        self.paths = []            # (explicit verdict given?, {field: text}, collection path)
+        for given in (False, True):
+            args = {n: Sym('<%s>' % r, nonnull=True) for n, r in zip(self.params, ROLES)}
+            if not given:
+                args[self.params[3]] = Const(None)
+            for s in Interp(prog, Scenario(args=args, inline=noinline)).run(self.f):
+                if s.raised is not None:
+                    continue
+                self.paths.append((given,) + self._record_of(s, p[0]))
+        colls = set(c for _, _, c in self.paths)
+        if len(colls) != 1 or None in colls:
+            raise AnalysisError('add_sigsubj: cannot tell which collection the record is added to (%s)' % sorted(map(str, colls)))
+        self.coll = colls.pop()
+        self.fields = None
+        for k, fl in self.tuples.items():
+            self.fields = fl if self.fields is None else self.fields
+
+    def _record_of(self, s, selfname):
+        recs = [c for c in s.calls if c[0].startswith(selfname + '.') and c[0][len(selfname) + 1:] in self.tuples]
+        if len(recs) != 1:
+            return None, None
+        ft, args, kw, line, node = recs[0]
+        fl = self.tuples[ft[len(selfname) + 1:]]
+        fields = dict(zip(fl, args))
+        for k, v in kw.items():
+            fields[k] = v
+        rtext = '%s(' % ft
+        coll = None
+        for ft2, args2, kw2, line2, node2 in s.calls:
+            if ft2.endswith('.append') and len(args2) == 1 and args2[0].startswith(rtext):
+                coll = ft2[:-len('.append')]
+        for path, vt, line2, v in s.stores:
+            if vt.replace(' ', '').startswith('(%s+[%s' % (path, rtext)):
+                coll = path
+        return fields, coll
+
+
+def record_model(prog):
+    m = getattr(prog, '_verdict_record', None)
+    if m is None:
+        m = RecordModel(prog)
+        try:
+            prog._verdict_record = m
+        except Exception:
+            pass
+    return m
 
 
 def check_fail_closed(rep, prog, rid):
-    """SignatureVerification.add_sigsubj: a record added without an explicit verdict must be a failing one."""
-    f = prog.method('pgpy.types', 'SignatureVerification', 'add_sigsubj')
-    rep.saw(fn=f)
-    _, mem, cls, _ = predicate_of(prog)
-    sc = Scenario(args={'issues': Const(None)}, inline=lambda fn: False)
-    outs = Interp(prog, sc).run(f)
-    found = False
-    for s in outs:
-        for ft, args, kw, line, node in s.calls:
-            if ft.endswith('_subjects.append') or ft.endswith('.append'):
-                pass
-        for ft, args, kw, line, node in s.calls:
-            if ft == 'self._sigsubj' or ft.endswith('._sigsubj'):
-                found = True
-                a0 = args[0] if args else kw.get('issues')
-                # the default must be an issue set that the predicate treats as failing
-                val = None
-                for n in ast.walk(f.node):
-                    if isinstance(n, ast.Assign) and isinstance(n.targets[0], ast.Name) and n.targets[0].id == 'issues':
-                        val = _fold_mask(n.value, mem)
-                if val is None:
-                    raise AnalysisError('default verdict of add_sigsubj not a foldable SecurityIssues constant: %s' % a0)
-                mask = cls[1] if cls[0] == 'monotone' else None
-                if mask is None:
-                    # non-monotone predicate is reported by C17.1; here only require a non-OK default
-                    rep.check(val != 0, rid, 'SignatureVerification.add_sigsubj', 'default issues = %s' % a0,
-                              'a record without an explicit verdict must not default to OK', where=f.where, found=a0)
-                else:
-                    rep.check(bool(val & mask), rid, 'SignatureVerification.add_sigsubj', 'default issues = %s' % a0,
-                              'a record added without an explicit verdict must count as a bad signature (fail closed)',
-                              where=f.where, expected='default & failing-mask != 0', found='%s (=%#x), mask=%#x' % (a0, val, mask))
-                # the record carries the four caller values in the namedtuple's field order
-                ci = prog.cls('pgpy.types', 'SignatureVerification')
-                nt = ci.attrs.get('_sigsubj')
-                fields = None
-                if isinstance(nt, ast.Call) and len(nt.args) == 2:
-                    try:
-                        fields = ast.literal_eval(nt.args[1])
-                    except Exception:
-                        fields = None
-                if fields is not None:
-                    want = {'issues': args[0] if args else None}
-                    order = dict(zip(fields, args))
-                    rep.check(order.get('by') == 'by' and order.get('signature') == 'signature' and order.get('subject') == 'subject',
-                              rid, 'SignatureVerification.add_sigsubj', 'record fields %s' % order,
-                              'the record must store by/signature/subject in the fields of the same name', where=f.where,
-                              found=order)
-    if not found:
-        raise AnalysisError('add_sigsubj no longer builds a _sigsubj record')
+    """SignatureVerification.add_sigsubj: a record added without an explicit verdict must be a failing one; the record keeps
+    the caller's signature / key / subject / verdict in the fields of those names."""
+    M = record_model(prog)
+    rep.saw(fn=M.f)
+    P = predicate(prog)
+    construct = 'SignatureVerification.add_sigsubj'
+    seen_default = False
+    for given, fields, coll in M.paths:
+        if fields is None:
+            raise AnalysisError('add_sigsubj no longer builds exactly one namedtuple record per path')
+        want = {r: '<%s>' % r for r in ROLES[:3]}
+        if given:
+            want['issues'] = '<issues>'
+        got = {r: fields.get(r) for r in want}
+        rep.check(got == want, rid, construct, 'record fields %s' % sorted(fields.items()),
+                  'the record must store the signature / key / subject%s handed in by position in the fields of the same name' %
+                  (' / verdict' if given else ''), where=M.f.where, expected=want, found=got,
+                  scenario='explicit verdict' if given else 'default verdict')
+        if given:
+            continue
+        seen_default = True
+        a0 = fields.get('issues')
+        val = P.eval_text(a0) if a0 is not None else None
+        if val is None or not isinstance(val, int):
+            raise AnalysisError('default verdict of add_sigsubj not a foldable SecurityIssues constant: %s' % a0)
+        if P.nonmonotone_witness() is not None:
+            # a non-monotone predicate is reported by C17.1; here only require a non-OK default
+            rep.check(int(val) != 0, rid, construct, 'default issues = %s' % a0,
+                      'a record without an explicit verdict must not default to OK', where=M.f.where, found=a0)
+        else:
+            rep.check(P(int(val)), rid, construct, 'default issues = %s' % a0,
+                      'a record added without an explicit verdict must count as a bad signature (fail closed)',
+                      where=M.f.where, expected='the verdict predicate holds for the default', found='%s (=%#x), failing members=%#x' % (a0, int(val), P.mask()))
+    if not seen_default:
+        raise AnalysisError('add_sigsubj: no path builds a record when no verdict is given')
 
 
 # ------------------------------------------------------------------------------------------------ partition
-def _atom(node):
-    """Classify a sub-expression over a record `x`:  'I' issues truthy, 'nI' issues falsy, 'F' failing predicate."""
-    t = ast.unparse(node)
-    if isinstance(node, ast.Attribute) and node.attr == 'causes_signature_verify_to_fail' and \
-            isinstance(node.value, ast.Attribute) and node.value.attr == 'issues':
-        return 'F'
-    if isinstance(node, ast.Attribute) and node.attr == 'issues':
-        return 'I'
-    if isinstance(node, ast.Compare) and len(node.ops) == 1 and isinstance(node.left, ast.Attribute) and node.left.attr == 'issues':
-        r = node.comparators[0]
-        is_ok = (isinstance(r, ast.Attribute) and r.attr == 'OK') or (isinstance(r, ast.Constant) and r.value == 0)
-        if is_ok and isinstance(node.ops[0], (ast.Is, ast.Eq)):
-            return 'nI'
-        if is_ok and isinstance(node.ops[0], (ast.IsNot, ast.NotEq)):
-            return 'I'
-    return None
-
-
-def eval_skeleton(node, assign):
-    a = _atom(node)
-    if a == 'I':
-        return assign['I']
-    if a == 'nI':
-        return not assign['I']
-    if a == 'F':
-        return assign['F']
-    if isinstance(node, ast.BoolOp):
-        vals = [eval_skeleton(v, assign) for v in node.values]
-        if any(v is None for v in vals):
-            return None
-        return all(vals) if isinstance(node.op, ast.And) else any(vals)
-    if isinstance(node, ast.UnaryOp) and isinstance(node.op, ast.Not):
-        v = eval_skeleton(node.operand, assign)
-        return None if v is None else (not v)
-    if isinstance(node, ast.Call) and dotted(node.func) == 'bool' and len(node.args) == 1:
-        return eval_skeleton(node.args[0], assign)
-    return None
-
-
-def _filter_cond(fn_node):
-    """The per-record condition of a generator-based selector: the `if` of the (single) generator expression, or the
-    element of all(...)."""
-    for n in ast.walk(fn_node):
-        if isinstance(n, (ast.GeneratorExp, ast.ListComp)):
-            g = n.generators[0]
-            src = ast.unparse(g.iter)
-            if '_subjects' not in src:
-                continue
-            if g.ifs:
-                cond = g.ifs[0] if len(g.ifs) == 1 else ast.BoolOp(op=ast.And(), values=list(g.ifs))
-                return 'filter', cond
-            return 'element', n.elt
-    return None, None
-
-
 ROWS = [{'I': False, 'F': False}, {'I': True, 'F': False}, {'I': True, 'F': True}]
+ROWNAME = ['issues=OK', 'advisory issues only', 'disqualifying issues']
+_OK = r'(?:SecurityIssues\.OK|SecurityIssues\(0\)|0)'
+
+
+def _record_oracle(row, fields):
+    """Truth assignment to the atoms over a record variable $k: its verdict field (by name or namedtuple index) truthy,
+    the predicate of it, and comparisons of it with the OK member."""
+    idx = fields.index('issues') if fields and 'issues' in fields else None
+    v = r'\$[\d.]+(?:\.issues%s)' % (r'|\[%d\]' % idx if idx is not None else '')
+    re_i = re.compile(r'^%s$' % v)
+    re_f = re.compile(r'^%s\.%s$' % (v, PREDICATE))
+    re_c = re.compile(r'^\((?:(?:%s) (is not|is|==|!=) %s|%s (is not|is|==|!=) (?:%s))\)$' % (v, _OK, _OK, v))
+
+    def oracle(t):
+        if re_f.match(t):
+            return row['F']
+        if re_i.match(t):
+            return row['I']
+        m = re_c.match(t)
+        if m:
+            op = m.group(1) or m.group(2)
+            return (not row['I']) if op in ('is', '==') else row['I']
+        return None
+    return oracle
+
+
+def _unwrap_iter(t):
+    """iter(X) / list(X) / tuple(X) of an iterable value X iterate X."""
+    while True:
+        m = re.match(r'^(?:iter|list|tuple)\((.*)\)$', t)
+        if not m or not _balanced(m.group(1)):
+            return t
+        t = m.group(1)
+
+
+def _selected(prog, f, row, M):
+    """Does the selector yield a record of this row?  True / False; AnalysisError when the shape is not understood."""
+    sc = Scenario(oracle=_record_oracle(row, M.fields), inline=noinline, decide_filters=True)
+    outs = Interp(prog, sc).run(f)
+    coll = M.coll.replace(M.f.params[0] + '.', f.params[0] + '.', 1)
+    whole = 'EACH($1 in %s;$1)' % coll
+    res = set()
+    for s in outs:
+        if s.raised is not None:
+            continue
+        ys = [render(y) for y in s.yields]
+        if not ys and s.ret is not None and not (isinstance(s.ret, Const) and s.ret.value is None):
+            ys = [render(s.ret)]            # a plain function returning the iterable
+        ys = [alpha(_unwrap_iter(y[1:] if y.startswith('*') else y)) for y in ys]
+        ys = [y for y in ys if y not in ('[]', '()')]
+        if not ys:
+            res.add(False)
+        elif ys == [whole]:
+            res.add(True)
+        elif len(ys) == 1 and re.match(r'^EACH\(\$1 in SLICE\(%s;[^;]*;[^;]*\);\$1\)$' % re.escape(coll), ys[0]):
+            return ('partial', ys[0])           # only a slice of the records is examined: some record is listed nowhere
+        else:
+            raise AnalysisError('SignatureVerification.%s: per-record selection not understood: %s' % (f.name, ys))
+    if len(res) != 1:
+        raise AnalysisError('SignatureVerification.%s: the per-record condition has an atom that is not over the record verdict (row %s)' % (f.name, row))
+    return res.pop()
+
+
+def _bool_row(prog, f, row, M):
+    """Effect of a record of this row on truthiness: True = keeps the result truthy, False = makes it falsy,
+    ('any', text) when the aggregation is not a conjunction over the records."""
+    sc = Scenario(oracle=_record_oracle(row, M.fields), inline=noinline, decide_filters=True)
+    outs = Interp(prog, sc).run(f)
+    coll = M.coll.replace(M.f.params[0] + '.', f.params[0] + '.', 1)
+    inloop, final = set(), set()
+    for s in outs:
+        if s.raised is not None:
+            continue
+        t = alpha(render(s.ret)) if s.ret is not None else 'None'
+        m = re.match(r'^(not )?(all|any)\(EACH\(\$1 in %s;(True|False)\)\)$' % re.escape(coll), t)
+        if m:
+            b = m.group(3) == 'True'
+            if (m.group(2) == 'all') == bool(m.group(1)):
+                return ('any', t)                   # any(..) / not all(..): not "every record is good"
+            return b if m.group(2) == 'all' else (not b)
+        if t in ('True', 'False'):
+            in_loop = any(fc[0] == 'in loop over %s' % coll for fc in s.facts)
+            (inloop if in_loop else final).add(t == 'True')
+            continue
+        raise AnalysisError('SignatureVerification.%s: aggregation over the records not understood: %s' % (f.name, t))
+    if final != {True}:
+        return ('any', 'result without a bad record: %s' % sorted(final))
+    if True in inloop:
+        return ('any', 'a single record decides truthiness')
+    return False not in inloop
 
 
 def check_partition(rep, prog, rid):
-    ci = prog.cls('pgpy.types', 'SignatureVerification')
-    tables = {}
-    for name in ('good_signatures', 'bad_signatures', '__bool__'):
+    M = record_model(prog)
+    ci = M.ci
+    fs = {}
+    for name in ('good_signatures', 'bad_signatures', '__bool__', '__and__'):
         f = ci.methods.get(name)
         if f is None:
             raise AnalysisError('SignatureVerification.%s vanished' % name)
         rep.saw(fn=f)
-        kind, cond = _filter_cond(f.node)
-        if cond is None:
-            raise AnalysisError('SignatureVerification.%s: no per-record condition over _subjects found' % name)
-        tbl = [eval_skeleton(cond, r) for r in ROWS]
-        if any(v is None for v in tbl):
-            raise AnalysisError('SignatureVerification.%s: condition %s has an unrecognised atom' % (name, ast.unparse(cond)))
-        tables[name] = (tbl, ast.unparse(cond), f)
-        if name == '__bool__':
-            uses_all = any(isinstance(n, ast.Call) and dotted(n.func) == 'all' for n in ast.walk(f.node))
-            rep.check(uses_all, rid, 'SignatureVerification.__bool__', 'aggregation over records',
-                      'truthiness must require every record to be good (all(...))', where=f.where)
-    good, bad, bl = tables['good_signatures'], tables['bad_signatures'], tables['__bool__']
-    rowname = ['issues=OK', 'advisory issues only', 'disqualifying issues']
+        fs[name] = f
+    good = [_selected(prog, fs['good_signatures'], r, M) for r in ROWS]
+    bad = [_selected(prog, fs['bad_signatures'], r, M) for r in ROWS]
+    bl = [_bool_row(prog, fs['__bool__'], r, M) for r in ROWS]
+    rep.analysed['paths'] += 3 * len(ROWS)
+    for name, tbl in (('good_signatures', good), ('bad_signatures', bad)):
+        part = [x for x in tbl if isinstance(x, tuple)]
+        rep.check(not part, rid, 'SignatureVerification.%s' % name, 'records examined',
+                  'every record must be listed exactly once, as good or as bad', where=fs[name].where,
+                  expected='all of %s' % M.coll, found=part[0][1] if part else None)
+    conj = [b for b in bl if isinstance(b, tuple)]
+    rep.check(not conj, rid, 'SignatureVerification.__bool__', 'aggregation over records',
+              'truthiness must require every record to be good (all(...))', where=fs['__bool__'].where, found=conj[0][1] if conj else None)
     for i, r in enumerate(ROWS):
-        rep.check(good[0][i] == (not bad[0][i]), rid, 'SignatureVerification.good_signatures/bad_signatures',
-                  'row %s: good=%s bad=%s' % (rowname[i], good[0][i], bad[0][i]),
-                  'every record must be listed exactly once, as good or as bad', where=good[2].where,
-                  expected='good == not bad', found='good: %s ; bad: %s' % (good[1], bad[1]), scenario=rowname[i])
-        rep.check(bl[0][i] == good[0][i], rid, 'SignatureVerification.__bool__',
-                  'row %s: bool-element=%s good=%s' % (rowname[i], bl[0][i], good[0][i]),
-                  'the result is truthy exactly when no record is bad', where=bl[2].where,
-                  expected='per-record condition of __bool__ == good', found=bl[1], scenario=rowname[i])
+        rep.check(good[i] == (not bad[i]), rid, 'SignatureVerification.good_signatures/bad_signatures',
+                  'row %s: good=%s bad=%s' % (ROWNAME[i], good[i], bad[i]),
+                  'every record must be listed exactly once, as good or as bad', where=fs['good_signatures'].where,
+                  expected='good == not bad', found='good: %s ; bad: %s' % (good, bad), scenario=ROWNAME[i])
+        if not isinstance(bl[i], tuple):
+            rep.check(bl[i] == good[i], rid, 'SignatureVerification.__bool__',
+                      'row %s: bool-element=%s good=%s' % (ROWNAME[i], bl[i], good[i]),
+                      'the result is truthy exactly when no record is bad', where=fs['__bool__'].where,
+                      expected='per-record condition of __bool__ == good', found=bl, scenario=ROWNAME[i])
     # the disqualifying row must be bad
-    rep.check(bad[0][2] is True and bad[0][0] is False, rid, 'SignatureVerification.bad_signatures', 'rows %s' % bad[0],
-              'a record with disqualifying issues is bad; a record with no issues is not', where=bad[2].where, found=bad[1])
-    # __and__ concatenates
-    f = ci.methods.get('__and__')
-    if f is None:
-        raise AnalysisError('SignatureVerification.__and__ vanished')
-    outs = Interp(prog, Scenario(args={'other': Sym('other', types={'SignatureVerification'}, nonnull=True)},
-                                 inline=lambda fn: False)).run(f)
-    ok = False
+    rep.check(bad[2] is True and bad[0] is False, rid, 'SignatureVerification.bad_signatures', 'rows %s' % bad,
+              'a record with disqualifying issues is bad; a record with no issues is not', where=fs['bad_signatures'].where, found=bad)
+    # __and__ keeps the records of both operands and returns the receiver
+    f = fs['__and__']
+    p = f.params
+    if len(p) != 2:
+        raise AnalysisError('SignatureVerification.__and__ no longer takes one operand')
+    mine = M.coll.replace(M.f.params[0] + '.', p[0] + '.', 1)
+    theirs = M.coll.replace(M.f.params[0] + '.', '<other>.', 1)
+    outs = Interp(prog, Scenario(args={p[1]: Sym('<other>', types={'SignatureVerification'}, nonnull=True)}, inline=noinline)).run(f)
+    merged = returned = 0
     for s in outs:
-        v = s.env.get('self._subjects')
-        if v is not None and render(v).replace(' ', '') in ('(self._subjects+other._subjects)',):
-            ok = True
-    rep.check(ok, rid, 'SignatureVerification.__and__', 'self._subjects += other._subjects',
-              'combining two results must keep the records of both', where=f.where,
-              expected='self._subjects = self._subjects + other._subjects')
+        if s.raised is not None:
+            continue
+        returned += 1
+        v = s.env.get(mine)
+        cat = v is not None and render(v).replace(' ', '') == '(%s+%s)' % (mine, theirs)
+        ext = any(c[0] == mine + '.extend' and c[1] == [theirs] and not c[2] for c in s.calls)
+        if (cat or ext) and not (cat and ext) and s.ret is not None and render(s.ret) == p[0]:
+            merged += 1
+    rep.check(returned > 0 and merged == returned, rid, 'SignatureVerification.__and__', 'self._subjects += other._subjects',
+              'combining two results must keep the records of both (and return the combined object)', where=f.where,
+              expected='%s = %s + %s; return %s' % (mine, mine, theirs, p[0]))
+
+
+# ------------------------------------------------------------------------------------------------ PGPKey.verify
+def _enclosing_loops(fn_node, target):
+    """For-loops of fn_node (outermost first) whose body contains the AST node `target`."""
+    out = []
+
+    def rec(n, stack):
+        if n is target:
+            out.extend(stack)
+            return True
+        for ch in ast.iter_child_nodes(n):
+            if isinstance(ch, (ast.FunctionDef, ast.AsyncFunctionDef, ast.ClassDef, ast.Lambda)):
+                continue
+            if rec(ch, stack + [ch] if isinstance(ch, ast.For) else stack):
+                return True
+        return False
+    rec(fn_node, [])
+    return out
+
+
+def record_sites(fn_node):
+    """Calls <result>.add_sigsubj(...) of a function (located by what they do)."""
+    return [c for c in ast.walk(fn_node) if isinstance(c, ast.Call) and isinstance(c.func, ast.Attribute) and c.func.attr == 'add_sigsubj']
+
+
+def verdict_loop(fi):
+    """The loop of PGPKey.verify that examines the collected pairs: the innermost loop around every record site."""
+    sites = record_sites(fi.node)
+    if not sites:
+        raise AnalysisError('%s: no add_sigsubj record site' % fi.qualname)
+    loops = set()
+    for c in sites:
+        enc = _enclosing_loops(fi.node, c)
+        if not enc:
+            raise AnalysisError('%s: a verdict is recorded outside any loop' % fi.qualname)
+        loops.add(id(enc[-1]))
+        loop = enc[-1]
+    if len(loops) != 1:
+        raise AnalysisError('%s: verdicts are recorded in %d different loops' % (fi.qualname, len(loops)))
+    return loop
+
+
+def loop_pair(fi, s):
+    """(sig, subj) texts the verdict loop binds on this path - canonical $k_0/$k_1 for a summarised loop, the element
+    values when the pair list was statically known."""
+    loop = verdict_loop(fi)
+    t = loop.target
+    if isinstance(t, (ast.Tuple, ast.List)) and len(t.elts) == 2 and all(isinstance(e, ast.Name) for e in t.elts):
+        a, b = (s.env.get(e.id) for e in t.elts)
+        if a is None or b is None:
+            return None
+        return render(a), render(b)
+    if isinstance(t, ast.Name):
+        v = s.env.get(t.id)
+        if v is None:
+            return None
+        if isinstance(v, ListV) and len(v.elems) == 2:
+            return render(v.elems[0]), render(v.elems[1])
+        return '%s[0]' % render(v), '%s[1]' % render(v)
+    raise AnalysisError('%s: the verification loop does not bind a (signature, subject) pair' % fi.qualname)
+
+
+def bit_tree(text):
+    """Parse a rendered flag expression into ('|', [..]) ('&', [..]) ('~', x) ('leaf', text); None when it is not one."""
+    t = text.strip()
+    while t.startswith('(') and t.endswith(')') and _balanced(t[1:-1]):
+        t = t[1:-1].strip()
+    for op in ('|', '&'):
+        parts = _split_top(t, ' %s ' % op)
+        if len(parts) > 1:
+            subs = [bit_tree(p) for p in parts]
+            return None if any(x is None for x in subs) else (op, subs)
+    if t.startswith('~'):
+        sub = bit_tree(t[1:])
+        return None if sub is None else ('~', sub)
+    if not t or not _balanced(t) or _split_top(t, ' ') != [t]:
+        return None
+    return ('leaf', t)
+
+
+def _split_top(t, sep):
+    parts, depth, cur, i = [], 0, '', 0
+    while i < len(t):
+        ch = t[i]
+        if ch in '([{':
+            depth += 1
+        elif ch in ')]}':
+            depth -= 1
+        if depth == 0 and t.startswith(sep, i):
+            parts.append(cur)
+            cur = ''
+            i += len(sep)
+            continue
+        cur += ch
+        i += 1
+    parts.append(cur)
+    return parts
+
+
+SOURCES = {'soundness': re.compile(r'^self\.check_soundness\(.*\)$'), 'primitives': re.compile(r'^self\.check_primitives\(\)$')}
+
+
+def source_of(leaf):
+    for k, rx in SOURCES.items():
+        if rx.match(leaf):
+            return k
+    return None
+
+
+def is_issue_set(text):
+    """A rendered value that is a bit-combination of the key's issue sources (check_soundness / check_primitives)."""
+    if PREDICATE in text:
+        return False
+    tr = bit_tree(text)
+    if tr is None:
+        return False
+
+    def leaves(n):
+        if n[0] == 'leaf':
+            return [n[1]]
+        if n[0] == '~':
+            return leaves(n[1])
+        out = []
+        for x in n[1]:
+            out.extend(leaves(x))
+        return out
+    return any(source_of(l) for l in leaves(tr))
+
+
+def contributions(P, text):
+    """{source: mask of its bits that can reach the value}, constant bits, problems - for a rendered issue-set expression."""
+    allbits = 0
+    for b in P.bits:
+        allbits |= b
+    tr = bit_tree(text)
+    if tr is None:
+        raise AnalysisError('issue set not a flag expression: %s' % text)
+    problems = []
+
+    def const(n):
+        if n[0] == 'leaf':
+            v = P.eval_text(n[1])
+            return int(v) if isinstance(v, int) and not isinstance(v, bool) else None
+        if n[0] == '~':
+            v = const(n[1])
+            return None if v is None else ~v
+        vals = [const(x) for x in n[1]]
+        if any(v is None for v in vals):
+            return None
+        r = vals[0]
+        for v in vals[1:]:
+            r = (r | v) if n[0] == '|' else (r & v)
+        return r
+
+    def rec(n):
+        c = const(n)
+        if c is not None:
+            return {}, c & allbits
+        if n[0] == 'leaf':
+            k = source_of(n[1])
+            if k is None:
+                raise AnalysisError('issue set has an operand that is neither an issue source nor a constant: %s' % n[1])
+            return {k: allbits}, 0
+        if n[0] == '~':
+            raise AnalysisError('issue set complements a non-constant: %s' % text)
+        if n[0] == '|':
+            src, cb = {}, 0
+            for x in n[1]:
+                s2, c2 = rec(x)
+                cb |= c2
+                for k, m in s2.items():
+                    src[k] = src.get(k, 0) | m
+            return src, cb
+        # '&': constants mask; two issue sources intersect (bits are dropped unless both have them)
+        masks = [const(x) for x in n[1]]
+        srcs = [rec(x) for x, m in zip(n[1], masks) if m is None]
+        m = allbits
+        for v in masks:
+            if v is not None:
+                m &= v
+        if len(srcs) > 1:
+            problems.append('sources are intersected with &')
+            out = {}
+            for s2, c2 in srcs:
+                for k in s2:
+                    out[k] = 0
+            return out, 0
+        s2, c2 = srcs[0]
+        return {k: v & m for k, v in s2.items()}, c2 & m
+    src, cb = rec(tr)
+    return src, cb, problems, allbits
+
+
+def run_verify(prog, detached=False, I=None, F=None, V=None, subject_type=None):
+    """Interpret PGPKey.verify with the atoms pinned: I issue set truthy, F predicate of the issue set, V library verdict truthy
+    (None = explore both).  Returns (fi, paths, texts the predicate was asked of)."""
+    fi = prog.method('pgpy.pgp', 'PGPKey', 'verify')
+    p = fi.params
+    if len(p) < 3:
+        raise AnalysisError('PGPKey.verify no longer takes (subject, signature)')
+    asked = []
+
+    def oracle(t):
+        if t.startswith('self._key.verify(') and _balanced(t[len('self._key.verify('):-1]) and t.endswith(')'):
+            return V
+        if t.endswith('.' + PREDICATE):
+            base = t[:-len(PREDICATE) - 1]
+            if is_issue_set(base):
+                if base not in asked:
+                    asked.append(base)
+                return F
+            return None
+        if is_issue_set(t):
+            return I
+        return None
+    if detached:
+        args = {p[1]: Sym(p[1], types={'bytes'}, nonnull=True), p[2]: Sym(p[2], types={'PGPSignature'}, nonnull=True)}
+    else:
+        args = {p[1]: Sym(p[1], types={subject_type or 'PGPUID'}, nonnull=True), p[2]: Const(None)}
+    outs = Interp(prog, Scenario(args=args, oracle=oracle, inline=noinline)).run(fi)
+    return fi, outs, asked
+
+
+def record_args(prog, call):
+    """Positional view [signature, by, subject, issues] of an add_sigsubj call (keywords mapped through its parameters)."""
+    M = record_model(prog)
+    ft, args, kw, line, node = call
+    out = list(args[:len(ROLES)]) + [None] * (len(ROLES) - len(args))
+    for k, v in kw.items():
+        if k in M.params:
+            out[M.params.index(k)] = v
+    return out
+
+
+def collect(outs):
+    """Union over paths of (crypto calls, record calls, subkey delegations) of PGPKey.verify, each with the loop pair of its path."""
+    crypto, recs, deleg = [], [], []
+    for s in outs:
+        for c in s.calls:
+            ft = c[0]
+            if ft == 'self._key.verify':
+                if c not in [x for x, _ in crypto]:
+                    crypto.append((c, s))
+            elif ft.endswith('.add_sigsubj'):
+                if c not in [x for x, _ in recs]:
+                    recs.append((c, s))
+            elif ft.endswith('.verify') and ft.startswith('self.subkeys['):
+                if c not in [x for x, _ in deleg]:
+                    deleg.append((c, s))
+    return crypto, recs, deleg
 
 
 # ------------------------------------------------------------------------------------------------ one record
 def check_one_record(rep, prog, rid):
     fi = prog.method('pgpy.pgp', 'PGPKey', 'verify')
     g = CFG(fi.node)
-    loops = [n for n in g.nodes if n.kind == 'loop' and isinstance(n.ast, ast.For) and 'sspairs' in ast.unparse(n.ast.iter)]
-    if len(loops) != 1:
-        raise AnalysisError('PGPKey.verify: expected one loop over sspairs, found %d' % len(loops))
-    head = loops[0]
+    loop = verdict_loop(fi)
+    heads = [n for n in g.nodes if n.kind == 'loop' and n.ast is loop]
+    if len(heads) != 1:
+        raise AnalysisError('PGPKey.verify: the verification loop has no single CFG node')
+    head = heads[0]
 
     def records(node):
         if node.ast is None or node.kind not in ('stmt',):
@@ -434,9 +968,12 @@ def check_one_record(rep, prog, rid):
     if not bad:
         rep.ok(rid, 'PGPKey.verify', '%d paths through the loop body, each records exactly once or raises' % len(paths))
     # the result object returned is the one the records were added to
+    recv = set(dotted(c.func.value) for c in record_sites(fi.node))
     rets = [n for n in g.nodes if n.kind == 'stmt' and isinstance(n.ast, ast.Return)]
-    rep.check(any(isinstance(r.ast.value, ast.Name) and r.ast.value.id == 'sigv' for r in rets), rid, 'PGPKey.verify',
-              'return value', 'verify must return the object the records were added to', where=fi.where)
+    rep.check(len(recv) == 1 and None not in recv and bool(rets) and all(dotted(r.ast.value) in recv for r in rets if r.ast.value is not None) and
+              any(r.ast.value is not None for r in rets), rid, 'PGPKey.verify',
+              'return value', 'verify must return the object the records were added to', where=fi.where,
+              expected='return %s' % sorted(map(str, recv)), found=[ast.unparse(r.ast) for r in rets])
 
 
 def or_operands(text):
@@ -478,50 +1015,43 @@ def _balanced(s):
 
 def check_crypto_arm_verdict(rep, prog, rid):
     """On the arm that runs the cryptographic check: a falsy result is always recorded with WrongSig in the issue set,
-    a truthy one never with a disqualifying member."""
-    fi = prog.method('pgpy.pgp', 'PGPKey', 'verify')
-    _, mem = _issues(prog)
+    a truthy one never with a disqualifying member; the record names the pair whose hashdata was checked."""
+    P = predicate(prog)
     for truthy in (False, True):
-        def oracle(t, _v=truthy):
-            if t.startswith('self._key.verify('):
-                return _v
-            if 'causes_signature_verify_to_fail' in t:
-                return False
-            return None
-        sc = Scenario(args={'subject': Sym('subject', types={'PGPUID'}, nonnull=True), 'signature': Const(None)},
-                      oracle=oracle, inline=lambda f: False, axioms={'(len(sspairs) == 0)': False, 'sspairs': True})
-        outs = Interp(prog, sc).run(fi)
+        fi, outs, _ = run_verify(prog, F=False, V=truthy)
         rep.analysed['paths'] += len(outs)
-        recs = []
-        for s in outs:
-            for c in s.calls:
-                if c[0].endswith('.add_sigsubj') and c not in recs:
-                    recs.append(c)
+        crypto, recs, _ = collect(outs)
         if not recs:
             rep.violation(rid, 'PGPKey.verify', 'no record after the crypto check', 'the cryptographic result is never recorded', where=fi.where)
             continue
-        for ft, args, kw, line, node in recs:
-            v = args[3] if len(args) > 3 else kw.get('issues')
+        for call, s in recs:
+            a = record_args(prog, call)
+            v = a[3]
+            w = '%s:%d' % (fi.module.relpath, call[3])
+            val = P.eval_text(v) if v is not None else None
             ops = [o.replace('SecurityIssues.', '') for o in or_operands(v or '')]
-            w = '%s:%d' % (fi.module.relpath, line)
             if not truthy:
-                rep.check(v is not None and 'WrongSig' in ops, rid, 'PGPKey.verify', 'library rejects -> recorded %s' % v,
+                wrong = P.mem.get('WrongSig')
+                has = (isinstance(val, int) and wrong and (val & wrong)) or 'WrongSig' in ops
+                rep.check(v is not None and bool(has), rid, 'PGPKey.verify', 'library rejects -> recorded %s' % v,
                           'a cryptographically wrong signature must always be recorded with WrongSig (whatever else is known about the key)',
                           where=w, expected='SecurityIssues.WrongSig (possibly | more)', found=v, scenario='library verify rejects')
             else:
                 bad = [o for o in ops if o in DISQUALIFYING]
+                if isinstance(val, int):
+                    bad = [n for n in DISQUALIFYING if val & P.mem.get(n, 0)]
                 rep.check(v is not None and not bad, rid, 'PGPKey.verify', 'library accepts -> recorded %s' % v,
                           'an accepted signature on a non-disqualified key must not be recorded as failing', where=w, found=v,
                           scenario='library verify accepts')
             # the pair named in the record is the pair whose hashdata was handed to the key material on this path
             pairs = set()
-            for s in outs:
-                if not any(c is x or c == x for x in s.calls for c in [(ft, args, kw, line, node)]):
+            for s2 in outs:
+                if call not in s2.calls:
                     continue
-                for c in s.calls:
+                for c in s2.calls:
                     if c[0] == 'self._key.verify' and c[1]:
                         m = re.match(r'^(.+)\.hashdata\((.+)\)$', c[1][0])
                         if m:
                             pairs.add((m.group(1), m.group(2)))
-            rep.check(len(args) > 2 and (args[0], args[2]) in pairs, rid, 'PGPKey.verify', 'record of %s' % (args[:3],),
-                      'the record must name the signature and subject that were examined', where=w, expected=sorted(pairs), found=args[:3])
+            rep.check((a[0], a[2]) in pairs, rid, 'PGPKey.verify', 'record of %s' % (a[:3],),
+                      'the record must name the signature and subject that were examined', where=w, expected=sorted(pairs), found=a[:3])
